@@ -357,3 +357,15 @@ class FloatH:
 
     def lu_log(self):
         return self._lu
+
+
+def _arr_sym(self, x):
+    return np.array(x, dtype=object)
+
+
+def _arr_float(self, x):
+    return np.array(x, dtype=float)
+
+
+SymH.arr = _arr_sym
+FloatH.arr = _arr_float
